@@ -611,6 +611,17 @@ func (s *Sim) AdvanceTo(t time.Time) {
 
 func (s *Sim) Advance(d time.Duration) { s.AdvanceTo(s.now.Add(d)) }
 
+// StepBack sets the wall clock back by d (an NTP correction, a user changing
+// the date). Timers run on the monotonic clock: they keep their distance from
+// now, so their wall-clock deadlines move back with it.
+func (s *Sim) StepBack(d time.Duration) {
+	s.now = s.now.Add(-d)
+	for _, tm := range s.timers {
+		tm.at = tm.at.Add(-d)
+	}
+	s.Logf("clock", "stepped back %s to %s", d, s.now.UTC().Format(time.RFC3339Nano))
+}
+
 // SetClock sets the clock to an arbitrary instant (used between sessions).
 func (s *Sim) SetClock(t time.Time) {
 	if t.After(s.now) {
